@@ -376,7 +376,7 @@ class World:
                     f.write("%s\t%d\t%d\t%d\t%d\n" % (name, n, off, width, width + 1))
                     off += n + (n + width - 1) // width
 
-    def gtf_lines(self, with_meta=True, exon_ids=None, id_map=None):
+    def gtf_lines(self, with_meta=True, exon_ids=None, id_map=None, no_meta_genes=()):
         """id_map: optional dict old id -> new id for genes/transcripts (for C17 collision worlds).
         exon_ids: optional dict (chrom,start,end,strand) -> exon_id string."""
         id_map = id_map or {}
@@ -385,12 +385,13 @@ class World:
             genes = sorted([g for g in self.genes if g.chrom == chrom and g.transcripts], key=lambda g: (g.start, g.id))
             for g in genes:
                 gid = id_map.get(g.id, g.id)
-                if with_meta:
+                meta_here = with_meta and g.id not in no_meta_genes      # genes described by exon records only (legal GTF)
+                if meta_here:
                     lines.append("\t".join([chrom, "vsynth", "gene", str(g.start), str(g.end), ".", g.strand, ".",
                                             'gene_id "%s"; gene_name "%s";' % (gid, gid)]))
                 for t in g.transcripts:
                     tid = id_map.get(t.id, t.id)
-                    if with_meta:
+                    if meta_here:
                         lines.append("\t".join([chrom, "vsynth", "transcript", str(t.start), str(t.end), ".",
                                                 t.strand, ".",
                                                 'gene_id "%s"; transcript_id "%s";' % (gid, tid)]))
